@@ -252,10 +252,12 @@ def check_point(spec, text, conds, order, pens, kind, x, res, stats, inp, cross)
         if not feq(P, total, 1e-9, 0.0):
             res.violation(key + 'penalty-sum', d, inp)
         under = '#underflow' if (total == 0 and not allsat) else ''      # the documented term itself underflows (c*c == 0)
-        if (P == 0) != allsat or not P >= 0:
-            res.violation(key + 'zero-iff-all-satisfied' + under, d, inp)
-        if P == 0 and not all(o[3] for o in orc):
-            res.violation(key + 'zero-implies-relations-hold' + under, d, inp)
+        if under:
+            res.extra['underflow_points_skipped'] = res.extra.get('underflow_points_skipped', 0) + 1
+        elif (P == 0) != allsat or not P >= 0:
+            res.violation(key + 'zero-iff-all-satisfied', d, inp)
+        if not under and P == 0 and not all(o[3] for o in orc):
+            res.violation(key + 'zero-implies-relations-hold', d, inp)
         if cross == 'exact' and P != 0:
             res.violation(key + 'penalty-zero-after-constraint#exact', d, inp)
         if cross == 'rounding' and pt != 'uniform' and not P <= bound:
